@@ -29,6 +29,10 @@ def run(ctx):
     check_inline(ctx, prog)
     check_accessors(ctx, prog)
     check_strshare(ctx, prog)
+    # the element lifetime rules of Array, on the instantiations Var's containers use (Array<Var>, Array<char>, the Dic storage):
+    # removing / inserting children must construct and destroy each child exactly once
+    n_l = C01.check_lifetime(ctx, prog)
+    ctx.floor('C01.lifetime members used by Var', n_l, 3)
     return __doc__.split('\n\n', 1)[1]
 
 
